@@ -167,7 +167,6 @@ func VerifP_C07_BodyCandidates(mode int) {
 	verifReach("end")
 }
 
-
 var _ = lang.Candidates{}
 
 // C06(c): limit and 'complete' flag of bodySchemaCandidates. The limit is
@@ -198,6 +197,63 @@ func VerifH_C06_BodyCandidates_Limit() {
 	verifAssert(len(cs.List) <= m, "C06:list-within-limit")
 	if cs.IsComplete {
 		verifAssert(len(cs.List) == total, "C06:complete-only-if-nothing-omitted")
+	}
+	verifReach("end")
+}
+
+// C07 (K): accepting a block candidate inside a body that enables dynamic blocks. The number of
+// literal and of dynamic "ebs" blocks already written and the MaxItems limit of the block type are
+// varied (the limit is symbolic); every block candidate offered on the empty line is written into
+// the body and the result validated: no unexpected and no surplus block that was not there before.
+func VerifH_C07_Accept_BlocksNextToDynamic() {
+	max := uint64(verifInt("max", 0, 3))
+	nlit := verifChoice("nlit", 3)
+	ndyn := verifChoice("ndyn", 3)
+	bs := &schema.BodySchema{Blocks: map[string]*schema.BlockSchema{
+		"res": {Body: &schema.BodySchema{
+			Extensions: &schema.BodyExtensions{DynamicBlocks: true},
+			Blocks: map[string]*schema.BlockSchema{
+				"ebs":   {Body: schema.NewBodySchema(), MaxItems: max},
+				"other": {Body: schema.NewBodySchema()},
+			},
+		}},
+	}}
+	head := "res {\n"
+	for k := 0; k < nlit; k++ {
+		head += "  ebs {\n  }\n"
+	}
+	for k := 0; k < ndyn; k++ {
+		head += "  dynamic \"ebs\" {\n    for_each = []\n    content {\n    }\n  }\n"
+	}
+	tail := "}\n"
+	src := head + "  \n" + tail
+	surplus := func(text string) int {
+		f2 := verifParseHCL(text, "body.tf")
+		d2 := verifDecoder(bs, map[string]*hcl.File{"body.tf": f2})
+		d2.pathCtx.Validators = verifValidators()
+		diags, err := d2.ValidateFile(context.Background(), "body.tf")
+		if err != nil {
+			return 0
+		}
+		return verifCountDiags(diags, "Unexpected attribute") + verifCountDiags(diags, "Unexpected block") + verifCountDiags(diags, "Too many blocks")
+	}
+	d := verifDecoder(bs, map[string]*hcl.File{"body.tf": verifParseHCL(src, "body.tf")})
+	pos, _ := verifPosAt(src, len(head)+2)
+	cs, err := d.CompletionAtPos(context.Background(), "body.tf", pos)
+	if err == nil {
+		before := surplus(src)
+		offered := false
+		for _, c := range cs.List {
+			if c.Kind != lang.BlockCandidateKind || c.Label == "dynamic" {
+				continue
+			}
+			offered = verifOr(offered, c.Label == "ebs")
+			verifAssert(surplus(head+"  "+c.Label+" {\n  }\n"+tail) <= before, "C07:accepted-block-candidate-next-to-dynamic-blocks-is-not-surplus["+c.Label+"]")
+		}
+		// the limit counts the blocks written out: below it the block type is offered
+		if verifOr(max == 0, uint64(nlit) < max) {
+			verifAssert(offered, "C07:block-type-below-its-limit-is-offered")
+		}
 	}
 	verifReach("end")
 }
